@@ -24,12 +24,23 @@ def harnesses():
 
 
 def native_replay(h, hr, target_dir, package):
-    """No stubs are involved: Kani's concrete playback runs the harness body natively."""
-    src, vecs, out = kani.concrete_values(CRATE, h.name, target_dir)
-    if not src:
-        return None, {"error": "no concrete values", "tail": out[-1500:]}
-    ok, o = playback_incrate(src)
-    return ok, {"harness": h.name, "values": vecs, "playback_test": src, "playback_tail": o[-1500:]}
+    """The solver's trace for these harnesses is too large for Kani's playback extraction (the driver
+    ran to 17 GB); the failing instance (|act|, |exp|) is instead confirmed natively: a generated
+    unit test runs the REAL levenshtein_distance on every equality pattern of that instance
+    (c31_recovery::native_confirm) through `cargo kani playback` = plain native execution."""
+    import re
+    m = re.search(r"c31_lev_(\d)_(\d)", h.name)
+    if not m:
+        return None, {"error": "not an instance harness"}
+    n, k = int(m.group(1)), int(m.group(2))
+    test = ("#[test]\nfn kani_concrete_playback_c31_native_%d_%d() {\n"
+            "    if let Some((act, exp, d, reference, script_ok)) = super::c31_recovery::native_confirm(%d, %d) {\n"
+            "        panic!(\"C31 native witness: act={:?} exp={:?} reported_distance={} minimal_distance={} script_valid_and_costs_distance={}\", act, exp, d, reference, script_ok);\n"
+            "    }\n}\n" % (n, k, n, k))
+    from lib.incrate import playback_incrate as pb
+    ok, o = pb(CRATE, "parol_runtime", "super::c31_recovery", test, "rt")
+    wit = re.search(r"C31 native witness: (.*)", o)
+    return ok, {"harness": h.name, "instance": [n, k], "native_test": test, "witness": wit.group(1) if wit else None, "playback_tail": o[-800:]}
 
 
 def playback_incrate(test_src):
@@ -46,6 +57,6 @@ def main():
 
 def replay(path):
     obj = json.load(open(path))["replay"]
-    ok, out = playback_incrate(obj["playback_test"])
+    ok, out = playback_incrate(obj.get("native_test") or obj["playback_test"])
     print(out[-3000:])
     return 1 if ok else 0
